@@ -261,6 +261,21 @@ Proof.
   intros H. inversion H as [|x y l1 l2 [Ht _] _]; subst. vm_compute in Ht. discriminate.
 Qed.
 
+(* a time course that holds a droplet with NaN radius (possible through append(copy=False)) loses it on
+   reading: EmulsionTimeCourse.from_file appends copies, and Emulsion.copy keeps radius > -1 only *)
+Definition nan_radius_etc : etc :=
+  [(TInt 0, [ {| cls := Spherical; dpos := [f_1; f_2]; radius := qnan; width := None; ampl := [] |};
+              {| cls := Spherical; dpos := [f_1; f_2]; radius := f_3; width := None; ampl := [] |} ])].
+
+Lemma etc_nan_radius_witness :
+  forallb (fun te => forallb valid_drop (snd te)) nan_radius_etc = true /\
+  exists f x', enc_etc repo_fmt nan_radius_etc = Ok f /\ dec_etc repo_fmt f = Ok x' /\ x' <> nan_radius_etc.
+Proof.
+  split; [vm_compute; reflexivity|].
+  eexists. eexists. split; [vm_compute; reflexivity|]. split; [vm_compute; reflexivity|].
+  discriminate.
+Qed.
+
 (* ------------------------------------------------------------------------------------------ *)
 (* a non-trivial time course for the non-vacuity example                                      *)
 (* ------------------------------------------------------------------------------------------ *)
